@@ -214,7 +214,19 @@ class FormulaBuilder:
 
     def build(self, e: ast.AST, _depth: int = 0):
         if isinstance(e, ast.BoolOp):
-            parts = [self.build(v, _depth) for v in e.values]
+            vals = list(e.values)
+            if isinstance(e.op, ast.And):
+                # `k in d and <something about d[k]>`: the membership test only protects the subscript
+                # (a missing entry behaves like an empty one for len()/truthiness)
+                keep = []
+                for v in vals:
+                    if isinstance(v, ast.Compare) and len(v.ops) == 1 and isinstance(v.ops[0], ast.In):
+                        sub = canon(ast.Subscript(value=v.comparators[0], slice=v.left, ctx=ast.Load()))
+                        if any(o is not v and any(canon(x) == sub for x in ast.walk(o) if isinstance(x, (ast.Subscript, ast.Call))) for o in vals):
+                            continue
+                    keep.append(v)
+                vals = keep or vals
+            parts = [self.build(v, _depth) for v in vals]
             return f_and(*parts) if isinstance(e.op, ast.And) else f_or(*parts)
         if isinstance(e, ast.UnaryOp) and isinstance(e.op, ast.Not):
             return f_not(self.build(e.operand, _depth))
